@@ -210,6 +210,25 @@ Definition spec_events (T : tables) (r : root) (bs : list Z) : option (list oeve
   | None => None
   end.
 
+(** what warn-mode decoding of a structurally consistent input must produce: the event of every field of the
+    field-by-field reading, the event of an out-of-range leaf directly followed by one warning naming it *)
+Fixpoint stamp_lenient (len : Z) (l : list item) (off : Z) : list oevent :=
+  match l with
+  | [] => []
+  | IPrim pa p z :: r =>
+      (Ev (item_event (IPrim pa p z)), Z.min len (off + pwidth p + 1)) ::
+      (if valid p z then [] else [(Wn (EValue pa (pname p) z VSType), Z.min len (off + pwidth p + 1))]) ++
+      stamp_lenient len r (off + pwidth p)
+  | INode pa t :: r =>
+      (Ev (item_event (INode pa t)), Z.min len (off + 1)) :: stamp_lenient len r off
+  end.
+
+Definition spec_lenient (T : tables) (r : root) (bs : list Z) : option (list oevent) :=
+  match sp_root T r bs with
+  | Some vs => Some (stamp_lenient (Z.of_nat (List.length bs)) (flat_map items_of vs) 0)
+  | None => None
+  end.
+
 (** a structurally consistent input with an out-of-range leaf: the events of the fields before the
     first such leaf, then a value error naming it, with the bytes after that field remaining *)
 Fixpoint until_bad (len : Z) (l : list item) (off : Z) : list oevent * option (path * prim * Z * Z) :=
